@@ -19,6 +19,7 @@ import (
 	"encoding/binary"
 	"errors"
 	"fmt"
+	"runtime/debug"
 
 	"github.com/talostrading/sonic"
 	"github.com/talostrading/sonic/codec/frame"
@@ -461,13 +462,85 @@ func C19(tier string) *engine.Report {
 	for _, w := range []string{"write", "read", "allsizes", "hostile"} {
 		tot.Add(c19DFS(tier, w).Run(), rep)
 	}
+	for _, v := range c19LimitBoundary() {
+		rep.Add(v)
+	}
+	rep.Coverage["limit_boundary"] = "payloads of exactly the limit (1 GiB) and limit+1 through Encode; headers declaring limit and limit+1 through Decode"
 	tot.Fill(rep, "payload sequences (<=3 items over 6 sizes) written through a real CodecConn+frame.Codec (blocking/async, partial acceptance, deferred completion) and compared byte-for-byte with the reference encoding; "+
 		"the reference-encoded stream read back through a second CodecConn under all cut sets of up to N cuts around every boundary/header byte, whole and byte-by-byte, blocking/async inline/deferred; "+
 		"hostile 4-byte prefixes (all over-limit ones and those <=128 KiB) x tails x all cut sets; non-trivial = segmented, partial, deferred or multi-item", 2)
 	return rep
 }
 
+// c19LimitBoundary: "payload sizes from empty up to the limit" at the limit itself. The limit is 1 GiB, so this runs
+// once per check, not per execution: the payload is an untouched (all-zero) slice, which costs address space only;
+// the encoder's copy makes the destination resident (about 1 GiB for a second or two).
+func c19LimitBoundary() []engine.Violation {
+	var out []engine.Violation
+	add := func(sig, format string, a ...any) {
+		out = append(out, engine.Violation{Sig: sig, Msg: fmt.Sprintf(format, a...), Config: "limit"})
+	}
+	defer debug.FreeOSMemory()
+	func() {
+		defer func() {
+			if r := recover(); r != nil {
+				add("codecconn.limit/panic", "panic at the size limit: %v", r)
+			}
+		}()
+		limit := frame.MaxPayloadLength
+		payload := make([]byte, limit+1)
+		// exactly the limit: accepted, header + payload
+		dst := sonic.NewByteBuffer()
+		c := frame.NewCodec(sonic.NewByteBuffer())
+		if err := c.Encode(payload[:limit], dst); err != nil {
+			add("codecconn.limit/at-limit-refused", "Encode of a payload of exactly the limit (%d bytes): %v", limit, err)
+		} else {
+			dst.Commit(frame.HeaderLen + limit)
+			if dst.ReadLen() != frame.HeaderLen+limit || binary.BigEndian.Uint32(dst.Data()[:4]) != uint32(limit) {
+				add("codecconn.limit/at-limit-encoding", "Encode of %d bytes left %d bytes in the buffer, header % x", limit, dst.ReadLen(), dst.Data()[:4])
+			}
+		}
+		dst = nil
+		debug.FreeOSMemory()
+		// one more: refused, nothing written
+		dst2 := sonic.NewByteBuffer()
+		if err := c.Encode(payload, dst2); err == nil {
+			add("codecconn.limit/over-limit-accepted", "Encode of limit+1 bytes succeeded")
+		}
+		if dst2.WriteLen() != 0 || dst2.ReadLen() != 0 {
+			add("codecconn.limit/over-limit-wrote", "a refused Encode left %d+%d bytes in the buffer", dst2.ReadLen(), dst2.WriteLen())
+		}
+		// decoder: a header declaring exactly the limit is an incomplete item, limit+1 is an error
+		for _, d := range []struct {
+			decl     uint32
+			overflow bool
+		}{{uint32(limit), false}, {uint32(limit) + 1, true}} {
+			src := sonic.NewByteBuffer()
+			dc := frame.NewCodec(src)
+			var hdr [4]byte
+			binary.BigEndian.PutUint32(hdr[:], d.decl)
+			src.Write(hdr[:])
+			_, err := dc.Decode(src)
+			if d.overflow && !errors.Is(err, frame.ErrPayloadLengthOverflow) {
+				add("codecconn.limit/decode-over-limit", "a header declaring limit+1 bytes: Decode returned %v", err)
+			}
+			if !d.overflow && !errors.Is(err, sonicerrors.ErrNeedMore) {
+				add("codecconn.limit/decode-at-limit", "a header declaring exactly the limit: Decode returned %v, not need-more", err)
+			}
+		}
+	}()
+	return out
+}
+
 func C19Replay(v engine.Violation, log func(string)) *engine.Violation {
+	if v.Config == "limit" {
+		for _, vv := range c19LimitBoundary() {
+			if vv.Sig == v.Sig {
+				return &vv
+			}
+		}
+		return nil
+	}
 	var which, tier string
 	for i := 0; i < len(v.Config); i++ {
 		if v.Config[i] == '@' {
